@@ -282,6 +282,30 @@ class Ctx:
 		return self.driver.run(lines)
 
 
+def safe_check(check, ctx, case):
+	"""Call a property module's `check`. An exception that passes through a frame of the code under test (/repo) is an
+	observation about that code (the statement demands a value, it raised): it becomes a failure of the case. Any other
+	exception is a bug of the harness and propagates (exit 2)."""
+	import traceback
+	try:
+		r = check(ctx, case)
+	except BrokenCheck:
+		raise
+	except BaseException as e:
+		if isinstance(e, (KeyboardInterrupt, SystemExit)):
+			raise
+		tb = traceback.extract_tb(e.__traceback__)
+		repo = str(REPO)
+		in_repo = [fr for fr in tb if fr.filename.startswith(repo)]
+		if not in_repo:
+			raise
+		fr = in_repo[-1]
+		return [], [f'code under test raised {type(e).__name__}: {e} at {fr.filename[len(repo)+1:]}:{fr.lineno} ({fr.name})']
+	if isinstance(r, tuple):
+		return r
+	return r, []
+
+
 def _truncate(obj, n=400):
 	s = json.dumps(obj, default=str)
 	if len(s) <= n:
